@@ -41,6 +41,8 @@ def shape(ev, clause):
         for i, o in enumerate(ev['ops']):
             if o['op'] == 'w' and o['raised'] != 'none':
                 att = o['att']
+                if o['raised'] == 'Hang':
+                    return 'Hang|write_keeps_retrying_open'
                 if att and (not att[-1]['ok']) and att[-1]['nopen'] == 0:
                     continue
                 if not att:
